@@ -13,7 +13,7 @@ import (
 
 func init() {
 	register("C20", propMeta{
-		Explanation:  "Decides how the caches are kept behind the authoritative stores: (R1) a node that is not in the transaction's own caches is resolved through the registry handle's active id, the process-wide MRU shortcut only before commit time and the L1 node cache only on an equal version (shared with C03.R2); (R2) every registry writer of the file-system registry refreshes or evicts what it wrote: Add and UpdateNoLocks touch the caches only after the disk write succeeded and then set L1 and L2 for the written handles, Update evicts L1 and L2 on a failed disk write and refreshes them on success, Remove evicts on every exit (deferred); (R3) positional contract: the callers of Registry.Get index the result in lock-step with the request, so every Registry.Get implementation in scope must return handles in request order: all appends to the result happen in loops over the requested ids and appends of different loops are separated by a reset of the result; (R4) the store repository refreshes or evicts the cached StoreInfo AFTER every successful write of a store's metadata - on the commit path of Update and in its undo closure - and evicts it before the store's folder is removed; (R5) the per-process L1 handle cache (refreshed only by this process's own registry writes) is read by nothing but the pre-commit MRU shortcut of nodeRepositoryBackend.get - in particular no Registry.Get implementation serves handles from it. R4 also requires the record cached after a storeinfo write to be the record that was written.",
+		Explanation:  "Decides how the caches are kept behind the authoritative stores: (R1) a node that is not in the transaction's own caches is resolved through the registry handle's active id, the process-wide MRU shortcut only before commit time and the L1 node cache only on an equal version (shared with C03.R2); (R2) every registry writer of the file-system registry refreshes or evicts what it wrote: Add and UpdateNoLocks touch the caches only after the disk write succeeded and then set L1 and L2 for the written handles, Update evicts L1 and L2 on a failed disk write and refreshes them on success, Remove evicts on every exit (deferred); (R3) positional contract: the callers of Registry.Get index the result in lock-step with the request, so every Registry.Get implementation in scope must return handles in request order: all appends to the result happen in loops over the requested ids and appends of different loops are separated by a reset of the result; (R4) the store repository refreshes or evicts the cached StoreInfo AFTER every successful write of a store's metadata - on the commit path of Update and in its undo closure - and evicts it before the store's folder is removed; (R5) the per-process L1 handle cache (refreshed only by this process's own registry writes) is read by nothing but the pre-commit MRU shortcut of nodeRepositoryBackend.get - in particular no Registry.Get implementation serves handles from it. R4 also requires the record cached after a storeinfo write to be the record that was written. R2 also requires that no iteration over the written handles skips the L2 refresh.",
 		DoesNotCover: "Cross-process freshness of the time-based caches (L1 handle cache TTL, StoreInfo cache TTL), eviction at arbitrary moments and clustered-vs-standalone cache behaviour are runtime matters and are not decided; the value cache is covered only through C19.R4.",
 	}, runC20)
 }
@@ -384,6 +384,34 @@ func registryCacheAfterWriteRule(c *Ctx, r2 string) {
 			}
 		}
 		c.Check(okAll, r2, shortKey(spec.fn)+": L1 and L2 are refreshed for every written handle", f.Decl.Pos(), "Handles.Set and SetStruct inside loops over the written payload", "a written handle is not propagated to one of the caches (a later read is served the old handle)", nil)
+		// ... on every iteration: no path through the loop over the payload skips the L2 refresh (its inner loop)
+		for _, nc := range g.callNodes(kL2Set) {
+			hs := g.rangeHeads(nc.n)
+			var outer, inner *GNode
+			for _, h := range hs {
+				if mentionsObj(info, h.RangeHead.X, par) {
+					outer = h
+				} else {
+					inner = h
+				}
+			}
+			if outer == nil {
+				continue
+			}
+			target := nc.n
+			if inner != nil {
+				target = inner
+			}
+			var body []int
+			for _, e := range outer.Succs {
+				if e.Cond == 1 {
+					body = append(body, e.To)
+				}
+			}
+			offs := g.MustFollowFrom(body, func(x *GNode) bool { return x == target }, func(x *GNode) bool { return x == outer || x.Exit })
+			c.Offences(g, offs, r2, shortKey(spec.fn)+": no written handle skips the L2 refresh", nc.cs.Call.Pos(), "every iteration over the written payload reaches the SetStruct loop",
+				"an iteration over the written handles can skip the L2 refresh (for a class of writes, say the non-final ones): the same entry point also writes the handles a rollback or the priority rollback RESTORES, so after a restore the shared cache keeps the flipped handle and every process resolves the aborted transaction's node until the entry expires")
+		}
 	}
 }
 
